@@ -30,7 +30,12 @@ def _run_chain_forked(chain_fn, state, chain, timeout):
         code = 0
         try:
             os.close(r)
-            faulthandler.dump_traceback_later(timeout, exit=True)
+            # Not faulthandler.dump_traceback_later(): if the parent has a
+            # watchdog pending, its thread does not exist in this child and
+            # re-arming would wait for it forever.  SIGALRM's default action
+            # ends the child; the parent then reports 'crash'.
+            signal.signal(signal.SIGALRM, signal.SIG_DFL)
+            signal.alarm(int(timeout))
             try:
                 res = ('ok', chain_fn(state, chain))
             except BaseException as exc:
